@@ -141,6 +141,8 @@ pub fn main() {
     let cases = run.scale(10_000, 500_000);
     run.set_floors(5000, 1000);
     run.require_counter("calls_compared");
+    run.require_counter("hostile_values_executed_without_validation");
+    run.require_counter("calls_with_failing_coercion");
     let shards = n_shards(&run);
     let run = &run;
     crate::witness::c06(run);
@@ -172,6 +174,7 @@ pub fn main() {
                     o.max_depth = 3;
                     o.fragments = r.chance(1, 3);
                     o.directives = r.chance(1, 3);
+                    o.nested_omitted_variables = run.feature("nested_omitted_variable");
                     o.kind = if ts.mutation.is_some() && r.chance(1, 6) { OpKind::Mutation } else { OpKind::Query };
                     let mut gd = gen_doc(&ts, &mut r, &o);
                     if r.chance(1, 10) && run.feature("bad_variable_value") {
@@ -184,7 +187,144 @@ pub fn main() {
             });
         }
     });
+    hostile_values_without_validation(run);
     run.finish_code_exit();
+}
+
+/// "A value that does not match the declared input type is never passed to a resolver": with
+/// `ValidationMode::Fast` the argument rules of validation do not run, so execution-time coercion is the only
+/// guard. Valid documents over S1 get ONE value-level invalidating edit (the rule-targeted operators of C09 that
+/// change argument values, plus a oneOf object with two members) and are executed on a Fast-mode schema: where the
+/// reference coercion of a field's arguments fails, that resolver must not be invoked and an error must be
+/// reported for it; every resolver that does run must still have received the reference values.
+fn hostile_values_without_validation(run: &Run) {
+    use crate::c09::ops;
+    const OPS: &[&str] = &[
+        "wrong_kind_literal",
+        "wrong_kind_literal_beside_unsupplied_variable",
+        "null_for_non_null",
+        "unknown_enum_value",
+        "missing_required_input_field",
+        "missing_required_argument",
+        "non_object_literal_for_input_object",
+    ];
+    let cases = run.scale(6_000, 200_000);
+    let shards = n_shards(run);
+    let all = ops::operators();
+    let table: Vec<&ops::OpDef> = all.iter().filter(|o| OPS.contains(&o.name)).collect();
+    let table = &table;
+    std::thread::scope(|sc| {
+        for shard in 0..shards {
+            sc.spawn(move || {
+                let mut r = shard_rng(run, 606, shard);
+                let ts = s1::model();
+                let fast = AnySchema::S1(s1::builder().validation_mode(async_graphql::ValidationMode::Fast).finish());
+                let mut i = shard;
+                while i < cases {
+                    i += shards;
+                    let mut o = doc_opts(run);
+                    o.max_depth = 2;
+                    o.fragments = r.chance(1, 3);
+                    o.directives = false;
+                    o.kind = OpKind::Query;
+                    let gd = gen_doc(&ts, &mut r, &o);
+                    let Some(mo) = crate::c09::main_op(&gd) else { continue };
+                    let sites = ops::collect(&ts, &gd.doc);
+                    let cx = ops::Cx { ts: &ts, gd: &gd, sites: &sites, main_op: mo, salt: r.next_u64() };
+                    let (name, mutant) = if r.chance(1, 5) {
+                        ("oneof_two_members", oneof_two_members(&ts, &gd, &mut r))
+                    } else {
+                        let op = *r.pick(table);
+                        (op.name, (op.f)(&cx, &mut r).map(|m| m.gd))
+                    };
+                    let Some(mgd) = mutant else {
+                        run.count("hostile_operator_not_applicable", 1);
+                        continue;
+                    };
+                    // an edit of one occurrence of a response key that is written twice makes the document
+                    // invalid in another way (fields that cannot merge): not this phase's subject
+                    {
+                        let probe = Case::new(ts.clone(), mgd.clone(), world_for("static", 1), false);
+                        if probe.reference().merged_groups > 0 {
+                            run.count("hostile_skipped_merged_key", 1);
+                            continue;
+                        }
+                    }
+                    run.count("hostile_values_executed_without_validation", 1);
+                    run.count(&format!("hostile_{name}"), 1);
+                    let world = world_for("static", r.next_u64());
+                    let case = Case::new(ts.clone(), mgd, world, r.bool());
+                    one(run, &fast, &case);
+                }
+            });
+        }
+    });
+}
+
+/// Give a oneOf input-object literal a second member (valid on its own).
+fn oneof_two_members(ts: &TypeSystem, gd: &vh_model::gen_doc::GenDoc, r: &mut Rng) -> Option<vh_model::gen_doc::GenDoc> {
+    fn visit(ts: &TypeSystem, ty: &Ty, v: &mut Val, r: &mut Rng, done: &mut bool) {
+        if *done {
+            return;
+        }
+        match (ty.nullable(), v) {
+            (Ty::List(item), Val::List(xs)) => {
+                for x in xs.iter_mut() {
+                    visit(ts, item, x, r, done);
+                }
+            }
+            (Ty::Named(n), Val::Obj(m)) => {
+                if let Kind::Input { fields, oneof } = ts.kind(n).clone() {
+                    if oneof {
+                        if m.len() == 1 && !matches!(m[0].1, Val::Var(_)) {
+                            let others: Vec<&ArgDef> = fields.iter().filter(|f| f.name != m[0].0).collect();
+                            if !others.is_empty() {
+                                let f = *r.pick(&others);
+                                let lit = vh_model::gen_ts::gen_input_literal(ts, &f.ty.clone().nn(), r, 1);
+                                m.push((f.name.clone(), lit));
+                                *done = true;
+                            }
+                        }
+                    } else {
+                        for (k, x) in m.iter_mut() {
+                            if let Some(f) = fields.iter().find(|f| &f.name == k) {
+                                visit(ts, &f.ty, x, r, done);
+                            }
+                        }
+                    }
+                }
+            }
+            _ => {}
+        }
+    }
+    fn walk(ts: &TypeSystem, parent: &str, sels: &mut Vec<vh_model::doc::Sel>, r: &mut Rng, done: &mut bool) {
+        for s in sels.iter_mut() {
+            match s {
+                vh_model::doc::Sel::Field(f) => {
+                    let Some(fd) = ts.field(parent, &f.name).cloned() else { continue };
+                    for (k, v) in f.args.iter_mut() {
+                        if let Some(a) = fd.args.iter().find(|a| &a.name == k) {
+                            visit(ts, &a.ty, v, r, done);
+                        }
+                    }
+                    let child = fd.ty.name().to_string();
+                    walk(ts, &child, &mut f.sel, r, done);
+                }
+                vh_model::doc::Sel::Inline { cond, sel, .. } => {
+                    let p = cond.clone().unwrap_or_else(|| parent.to_string());
+                    walk(ts, &p, sel, r, done);
+                }
+                _ => {}
+            }
+        }
+    }
+    let mut g = gd.clone();
+    let mut done = false;
+    let root = ts.query.clone();
+    for op in g.doc.ops.iter_mut() {
+        walk(ts, &root, &mut op.sel, r, &mut done);
+    }
+    if done { Some(g) } else { None }
 }
 
 fn corrupt_variable(vars: &mut J, r: &mut Rng) {
@@ -246,7 +386,33 @@ fn one(run: &Run, schema: &AnySchema, case: &Case) {
                     if evs.is_some() {
                         problems.push(format!("argument coercion of {} fails in the reference but the resolver was invoked", call.path));
                     }
-                    if !obs.errors.iter().any(|e| e.path.as_ref().map(|p| vh_model::exec::path_str(p)) == Some(call.path.clone())) {
+                    // "... or the request fails with an error": an error for this field (by its path), or an error
+                    // that carries no path at all (request-level: e.g. raised while the complexity of the field
+                    // was computed, or an argument error of a field reached through an interface).
+                    // Whether such an error should carry the path is not C06's subject.
+                    // An error whose position was discarded by another error's propagation may be dropped (§6.4.4):
+                    // demanded only while the parent object of the field survives in the response data.
+                    let parent_survives = {
+                        let segs: Vec<&str> = call.path.split('.').collect();
+                        let mut cur = Some(&obs.data);
+                        for seg in &segs[..segs.len() - 1] {
+                            cur = match cur {
+                                Some(J::Object(m)) => m.get(*seg),
+                                Some(J::Array(a)) => seg.parse::<usize>().ok().and_then(|i| a.get(i)),
+                                _ => None,
+                            };
+                        }
+                        matches!(cur, Some(J::Object(_)))
+                    };
+                    if !parent_survives {
+                        run.count("failing_coercion_in_discarded_position", 1);
+                    }
+                    if parent_survives
+                        && !obs.errors.iter().any(|e| match &e.path {
+                            Some(p) => vh_model::exec::path_str(p) == call.path,
+                            None => true,
+                        })
+                    {
                         problems.push(format!("argument coercion of {} fails in the reference but no error is reported for it", call.path));
                     }
                 }
